@@ -225,7 +225,26 @@ class Corpus(object):
         self.chk.notes.setdefault("corpus", {})["tlc_enumerated_pairs"] = len(abstract)
         if n_enum is not None and n_enum < len(abstract):
             r.shuffle(abstract)
-            abstract = abstract[:n_enum]
+            # every kind of single edit (action, variant) is represented - up to a third of the budget -, the rest is
+            # a plain seeded sample
+            buckets = {}
+            for t in abstract:
+                h = t.get("hist") or []
+                if len(h) == 1:
+                    buckets.setdefault((h[0]["edit"]["a"], h[0]["edit"].get("v")), []).append(t)
+            keys = sorted(buckets, key=repr)
+            r.shuffle(keys)
+            first, seen = [], set()
+            while len(first) < n_enum // 3 and keys:
+                for k in list(keys):
+                    if buckets[k]:
+                        first.append(buckets[k].pop())
+                        seen.add(id(first[-1]))
+                        if len(first) >= n_enum // 3:
+                            break
+                    else:
+                        keys.remove(k)
+            abstract = first + [t for t in abstract if id(t) not in seen][:n_enum - len(first)]
         out = []
         for k, t in enumerate(abstract):
             a, b = self._conc(t["base"]), self._conc(t["local"])
